@@ -31,7 +31,7 @@ var (
 	tokAttr   = []string{"{#id}", "{.cls}", "{#i .c k=v}", "{k=\"v\"}", "{data-x=y}", "{onclick=\"x\"}", "{#a #b}", "{.a.b}", "{k='v'}", "{k=v w}", "{", "}", " {#x}", "{#é}", "{k=\"a&b<c>\"}", "{k=\"a\\\"b\"}", "{style=\"x\"}", "{a=1 a=2}", "{title=\"<\"}", "{#}", "{.}", "{=}", "{k=}", "{k=\"", "{#id .c}\n", "{class=a .b}", "{class=a class=b}", "{.a class=b}", "{class=a .b .c}", "{id=1}", "{id=1.5}", "{id=-2}", "{id=true}", "{id=null}", "{class=1 .x}", "{k=1e3}", "{id=[1]}", "{id={a=b}}", "{id=\"x\" id=2}", "# h {class=foo .bar}\n", "# h {id=1}\n", "h {id=0}\n===\n", "{k=false .c}", "{class=\"a\" class=b}",
 		// list / nested values whose string elements carry markup characters
 		"{title=[\"a\\\"b\"]}", "{data-x=[\"<\", \"&\", \"\\\">\"]}", "# h {title=[x, \"\\\"><script>alert(1)</script>\"]}\n", "{class=[\"a\\\"b\" c]}", "{data-y=[[\"\\\" o=\\\"1\"]]}",
-		"# h {title=[\"\\\" onmouseover=\\\"x\"]}\n", "{data-z=[1, true, \"q\\\"r\"]}", "{id=[\"a&b\"]}", "{title=[\"<b>\"] .c}", "h {lang=[\"x\\\"y\", 2]}\n---\n"}
+		"# h {title=[\"\\\" onmouseover=\\\"x\"]}\n", "{data-z=[1, true, \"q\\\"r\"]}", "{id=[\"a&b\"]}", "{title=[\"<b>\"] .c}", "## ## {#id}\n", "# # {.c}\n", "### b ### {#i .c}\n", "## ## {k=v}\n", "# #\n", "## ##\n", "#  # {#x}", "h {lang=[\"x\\\"y\", 2]}\n---\n"}
 	tokExt = []string{"~~", "~", "~~~", "~~a~~", "|", "|-|", "|:-:|", "| - | - |", "|a|b|\n|-|-|\n|c|d|", "---|---", ":--", "--:", ":-:", "\\|", "[^1]", "[^1]:", "[^a]: ", "[^", "^]", "[ ]", "[x]", "[X] ", "- [ ] ", "- [x] ", ": ", ":", "\n: ", "\n:   ", "'", "\"", "--", "---", "...", "<<", ">>", "''", "\"a\"", "'a'", "a's", "\\ ", "(c)", "1'", "''\"", "'ve", "'re", "'ll", "'d", "'m", "'t", "'s", " 've\n", " 're\n\n", "we 'll", "I've", "'r", "'v", "\"'", "--\n", "...\n", "<<\n", "| `x` \\| y |", "| `p\\|q` |", "`x\\|y` | z\n--|--|--\n", "|a|\n|-|\n| `p\\|q` |\n", "|a|b|\n|-|-|\n| `x` \\| y | z |\n", "|`a\\|b`|\n|-|\n|`c\\|d`|e\\|f|\n", "\\|`", "`\\|", "|a|\n|-|\n|`<b>\\|`|\n", "`<\\|`", "`\"\\|&`"}
 	// near-triggers: look like an extension's syntax but with the wrong letter case, width or character
 	tokNear = []string{"WWW.example.com", "Www.a.bc", "wWw.x.org/p", "ww.example.com", "wwww", "HTTP", "Https", "ftp.example.com", "example.com/path", "a.b.co",
@@ -295,7 +295,7 @@ func Constructs(full bool) []string {
 	if !full {
 		return small
 	}
-	return append(small, "a\nb", "h\n---", "***", "- a\n- b", "1)", ">", "\tcode", "~~~\nc", "<div>\nx\n</div>", "<!-- c -->", "[x]: /u 't'", "[x]:", "|a|\n|-|\n|c|", ":", "[^1]", "- [ ] t", "~~s~~", "www.a.bc", "![i](u)", "<b>", "&amp;", "\\", "  a", "# h {#i}", "a {.c}\n===", "\"q\"", "--", "日本\n語", "\x00", "\x80", "=", "+", "1.", "    ", ">>", "[x]: <u v>\n'title' ok", "* * *", "a\\", "[a](u)", "<a@b.c>", "x\n: y\n: z", "- a\n\n  b")
+	return append(small, "a\nb", "h\n---", "***", "- a\n- b", "1)", ">", "\tcode", "~~~\nc", "<div>\nx\n</div>", "<!-- c -->", "[x]: /u 't'", "[x]:", "|a|\n|-|\n|c|", ":", "[^1]", "- [ ] t", "~~s~~", "www.a.bc", "![i](u)", "<b>", "&amp;", "\\", "  a", "# h {#i}", "## ## {#i}", "# # {.c}", "a {.c}\n===", "\"q\"", "--", "日本\n語", "\x00", "\x80", "=", "+", "1.", "    ", ">>", "[x]: <u v>\n'title' ok", "* * *", "a\\", "[a](u)", "<a@b.c>", "x\n: y\n: z", "- a\n\n  b")
 }
 
 // EnumConstructDocs calls f for every pair (always) and triple (per tier) of
